@@ -110,6 +110,16 @@ def slice_pc(ob):
 def to_smt2(prelude, ob, sliced=False) -> str:
     s = z3.Solver()
     pc, axioms = (list(ob.pc), list(ob.axioms))
+    if sliced == "ground":
+        # quantifier-free part of the path condition only, no prelude: pure ground reasoning (congruence + arithmetic)
+        from .symexec import has_quantifier
+
+        sg = z3.Solver()
+        for p in list(ob.pc) + list(ob.axioms):
+            if not has_quantifier(p):
+                sg.add(p)
+        sg.add(z3.Not(ob.goal))
+        return sg.to_smt2()
     if sliced == "strict":
         pc, axioms = slice_pc_strict(ob)
     elif sliced:
@@ -198,7 +208,7 @@ def discharge(prelude: List[Any], obligations: List[Any], timeout: float = 10.0,
         work = []
         for idx, r, ob in items:
             text = to_smt2(prelude, ob, sliced=mode)
-            work.append((idx, r, ob, write(idx, text, {"strict": ".strict", True: ".sliced", False: ""}[mode])))
+            work.append((idx, r, ob, write(idx, text, {"ground": ".ground", "strict": ".strict", True: ".sliced", False: ""}[mode])))
 
         def job(item):
             idx, r, ob, path = item
@@ -224,8 +234,9 @@ def discharge(prelude: List[Any], obligations: List[Any], timeout: float = 10.0,
     if os.environ.get("PYVC_NO_SLICING") == "1":
         remaining = open_items
     else:
-        remaining = run_round(open_items, "strict", min(timeout, 3.0), backends[:1], "(strict-slice)")
-        remaining = run_round(remaining, True, min(timeout, 5.0), backends[:1], "(sliced)")
+        remaining = run_round(open_items, "ground", min(timeout, 2.0), backends[:1], "(ground-slice)")
+        remaining = run_round(remaining, "strict", min(timeout, 3.0), backends[:1], "(strict-slice)")
+        remaining = run_round(remaining, True, min(timeout, 4.0), [b for b in backends if b in ("z3", "cvc5")], "(sliced)")
     remaining = run_round(remaining, False, timeout, backends, "")
     for idx, r, ob in open_items:
         if not r.smt2_path:
